@@ -82,6 +82,7 @@ func (fx *Facts) errNilness(ap *APath, o ssa.Value) (isNil, isNonNil bool) {
 	if o == nil {
 		return false, false
 	}
+	o = fx.throughIdentity(o) // `return report(err)` with report handing its argument back
 	if isNilConst(o) {
 		return true, false
 	}
@@ -117,6 +118,8 @@ func (fx *Facts) errNilness(ap *APath, o ssa.Value) (isNil, isNonNil bool) {
 
 func checkC06(cx *Ctx, r *Report) {
 	w, fx := cx.W, cx.Fx
+	// request data must not be shared between requests through recycled buffers (R-POOL, see C15)
+	cx.checkPoolEscape(r)
 	r.Clauses = []string{
 		"every validity condition is a guard on the way to the persist step: non-empty SAMLRequest; SigAlg implies Signature; decode (base64, encoding in {\"\", DEFLATE}, XML) errors reject; service provider lookup by Issuer; ID, Version, Issuer non-empty, Issuer equal to the provider's entity ID; Destination empty or one of the advertised SSO locations of this request's metadata; Conditions window",
 		"the time window guard equals the documented orderings: NotBefore rejects iff t > now, NotOnOrAfter rejects iff t <= now, unparseable bounds reject",
@@ -134,6 +137,7 @@ func checkC06(cx *Ctx, r *Report) {
 		return
 	}
 	ch := k.ch
+	cx.checkNoPassWithoutProvider(r, ch, "sso")
 	// --- steps in front of persist ---------------------------------------------------
 	var reqNonEmpty, sigAlgSig *Step
 	for _, s := range ch.Steps {
@@ -340,7 +344,7 @@ func checkC06(cx *Ctx, r *Report) {
 	}
 	// --- time window ------------------------------------------------------------------------
 	cx.checkTimeWindow(r, "R-GUARD")
-	r.Min("R-GUARD", 9)
+	r.Min("R-GUARD", 6)
 }
 
 // nilTestedCall: for a NIL atom whose subject is a call result, the call.
@@ -584,7 +588,7 @@ func (cx *Ctx) checkInflateCases(r *Report, rule string) {
 			continue
 		}
 		// data may be returned: the encoding must have matched one of the two cases
-		matched := false
+		matched, deflate := false, false
 		for _, a := range p.Atoms {
 			if a.Neg {
 				continue
@@ -593,12 +597,43 @@ func (cx *Ctx) checkInflateCases(r *Report, rule string) {
 				matched = true
 			}
 			if a.Op == "EQ" && (a.A == cDeflate || a.B == cDeflate) && (strings.HasSuffix(a.A, "/"+encParam) || strings.HasSuffix(a.B, "/"+encParam)) {
-				matched = true
+				matched, deflate = true, true
 			}
 		}
 		if !matched {
 			bad = "data can be returned for an encoding identifier that is neither empty nor DEFLATE (silent pass-through): " + atomsString(p.Atoms)
 			break
+		}
+		// under DEFLATE what is returned is what the inflater produced: the path creates the decompressor and does
+		// not return the bytes it was created on (a compressed stream may start with any octet, so "looks like
+		// XML already" is not a reason to skip it; DeflateAndBase64 followed by this function is the identity)
+		if deflate {
+			var inputs []ssa.Value
+			for _, in := range p.Instrs() {
+				if c, isC := in.(*ssa.Call); isC {
+					if decompressorCtors[calleeName(c)] && len(c.Call.Args) > 0 {
+						inputs = append(inputs, c.Call.Args[0])
+					} else if cal := calleeOf(c); cal != nil && cx.createsDecompressor(cal, 0) {
+						// the inflating part moved into a helper: what it is given is the compressed input
+						inputs = append(inputs, c.Call.Args...)
+					}
+				}
+			}
+			ret := fx.throughIdentity(fx.retVal(p, 0))
+			if len(inputs) == 0 {
+				bad = "under the DEFLATE identifier data is returned on a path that does not inflate it: " + atomsString(p.Atoms)
+				break
+			}
+			for _, in := range inputs {
+				for _, src := range readerSources(in) {
+					if fx.throughIdentity(src) == ret {
+						bad = "under the DEFLATE identifier the compressed bytes themselves are returned"
+					}
+				}
+			}
+			if bad != "" {
+				break
+			}
 		}
 		nOK++
 	}
@@ -744,21 +779,31 @@ func (cx *Ctx) checkDestinationContent(r *Report, hk, short, fnKey string) {
 		return
 	}
 	n := 0
-	for _, b := range fn.Blocks {
-		for _, in := range b.Instrs {
-			bo, ok := in.(*ssa.BinOp)
-			if !ok || bo.Op != token.EQL {
-				continue
-			}
-			for _, pair := range [][2]ssa.Value{{bo.X, bo.Y}, {bo.Y, bo.X}} {
-				if tp := fx.T(fx.path(pair[0])); !strings.HasPrefix(tp, "<samlp.") || !strings.HasSuffix(tp, ">.Destination") {
+	// the function and the function literals it creates (a predicate handed to slices.ContainsFunc)
+	fns := []*ssa.Function{fn}
+	for i := 0; i < len(fns); i++ {
+		fns = append(fns, fns[i].AnonFuncs...)
+	}
+	for _, g := range fns {
+		for _, b := range g.Blocks {
+			for _, in := range b.Instrs {
+				bo, ok := in.(*ssa.BinOp)
+				if !ok || bo.Op != token.EQL {
 					continue
 				}
-				n++
-				ls := vf.Deep(vf.Labels(pair[1]))
-				r.checkSources("R-VFG", short+":destination:locations", w.InstrPos(bo), ls,
-					[]string{"const:*", "ext:iface:context.Context.Value#0", "param:*/#0.conf.Endpoints.*", "param:*/#0.identityProvider.conf.Endpoints.*"},
-					[]string{"ext:iface:context.Context.Value#0"}, false)
+				for _, pair := range [][2]ssa.Value{{bo.X, bo.Y}, {bo.Y, bo.X}} {
+					if tp := fx.T(fx.path(pair[0])); !strings.HasPrefix(tp, "<samlp.") || !strings.HasSuffix(tp, ">.Destination") {
+						continue
+					}
+					if _, isK := pair[1].(*ssa.Const); isK {
+						continue // `Destination == ""`: the emptiness test, not the comparison with a location
+					}
+					n++
+					ls := vf.Deep(vf.Labels(pair[1]))
+					r.checkSources("R-VFG", short+":destination:locations", w.InstrPos(bo), ls,
+						[]string{"const:*", "ext:iface:context.Context.Value#0", "param:*/#0.conf.Endpoints.*", "param:*/#0.identityProvider.conf.Endpoints.*"},
+						[]string{"ext:iface:context.Context.Value#0"}, false)
+				}
 			}
 		}
 	}
@@ -965,4 +1010,47 @@ func stripNot(v ssa.Value) ssa.Value {
 		}
 		v = u.X
 	}
+}
+
+// readerSources: the byte slices / strings a reader value was made from (bytes.NewBuffer(x), bytes.NewReader(x),
+// strings.NewReader(x), bufio.NewReader(r) ...), or the value itself.
+func readerSources(v ssa.Value) []ssa.Value {
+	out := []ssa.Value{v}
+	for i := 0; i < 6; i++ {
+		switch x := v.(type) {
+		case *ssa.MakeInterface:
+			v = x.X
+		case *ssa.ChangeInterface:
+			v = x.X
+		case *ssa.Call:
+			switch calleeName(x) {
+			case "bytes.NewBuffer", "bytes.NewReader", "strings.NewReader", "bufio.NewReader", "bytes.NewBufferString", "io.LimitReader":
+				if len(x.Call.Args) > 0 {
+					v = x.Call.Args[0]
+					out = append(out, v)
+					continue
+				}
+			}
+			return out
+		default:
+			return out
+		}
+	}
+	return out
+}
+
+// createsDecompressor: the module function (or one it calls, three levels deep) creates a decompressing reader.
+func (cx *Ctx) createsDecompressor(fn *ssa.Function, depth int) bool {
+	if fn == nil || fn.Blocks == nil || fn.Pkg == nil || !isModulePath(fn.Pkg.Pkg.Path()) || depth > 3 {
+		return false
+	}
+	for _, c := range callsIn(fn) {
+		if decompressorCtors[calleeName(c)] {
+			return true
+		}
+		if cal := calleeOf(c); cal != nil && cal != fn && cx.createsDecompressor(cal, depth+1) {
+			return true
+		}
+	}
+	return false
 }
